@@ -241,7 +241,15 @@ Bounds == IF TamperWide THEN {256, 1024, 4096} ELSE {4096}
 BChars == IF TamperWide THEN {233, 8364, 65536, 10} ELSE {233, 65536}
 FBound == {[Base("long") EXCEPT !.content = Rep(b - k, 97) \o <<c>> \o Rep(3, 98)] : b \in Bounds, k \in 1..3, c \in BChars}
 
-Events == FContent \cup FTagStr \cup FShape \cup FNested \cup FNum \cup FLong \cup FBound
+\* tag values that have the LENGTH of a hex id / pubkey / signature (64, 128; and the neighbouring lengths) under the keys
+\* e, p, a, but contain characters that need escaping: a serializer must not take the length or the key for a promise
+Hexlike(n, p, sp) == Rep(p, 97) \o sp \o Rep(n - p - Len(sp), 98)
+FHexLike == {[Base("hexlike") EXCEPT !.tags = IF third THEN << << <<k>>, <<120>>, Hexlike(n, p, sp) >> >> ELSE << << <<k>>, Hexlike(n, p, sp) >> >>,
+                                     !.content = <<99>>]
+               : k \in {101, 112, 97}, n \in {63, 64, 65, 128}, p \in {0, 30, 60}, sp \in {<<34>>, <<92>>, <<10>>, <<34, 44, 34>>},
+                 third \in BOOLEAN}
+
+Events == FContent \cup FTagStr \cup FShape \cup FNested \cup FNum \cup FLong \cup FBound \cup FHexLike
 
 (* ----------------------------------- tampering -------------------------------- *)
 RemoveAt(s, i)     == SubSeq(s, 1, i - 1) \o SubSeq(s, i + 1, Len(s))
@@ -313,7 +321,7 @@ Init == ev \in Events /\ orig = ev /\ tam = "none" /\ txt = Canon(ev) /\ otxt = 
 StrSize(e) == Len(e.content) + Len(Cat(Cat(e.tags)))      \* code points in all strings of e
 \* which enumerated events are tampered with: all of them (thorough), or a subset that keeps every
 \* tamper operator and every family represented (quick)
-Tampered(e) == \/ TamperWide /\ e.f # "long"
+Tampered(e) == \/ TamperWide /\ e.f \notin {"long", "hexlike"}
                \/ e.f \in {"content", "tagstr"} /\ StrSize(e) <= 1
                \/ e.f = "shape"
                \/ e.f = "nested" /\ (Len(e.content) = 0 \/ Len(e.tags) = 0)
